@@ -374,6 +374,36 @@ pub fn run_one(
     (ctx, r)
 }
 
+/// Wall-clock bound on a single run (quick runs take milliseconds to about a
+/// minute for a graph that uses up its whole step budget). Beyond it the run is
+/// taken to hang inside the code under test.
+fn hang_secs(tier: Tier) -> f64 {
+    std::env::var("VERIF_HANG_SECS").ok().and_then(|s| s.parse().ok()).unwrap_or(match tier {
+        Tier::Quick => 420.0,
+        Tier::Thorough => 1200.0,
+    })
+}
+
+/// A run that does not come back: report it (replayable by seed and run index:
+/// the decisions are regenerated, the run itself cannot hand them over) and
+/// leave the process, since the stuck thread cannot be stopped.
+fn report_hang(check: &dyn Check, tier: Tier, seed: u64, i: u64, secs: f64) -> ! {
+    let key = format!("{}:hung", check.id());
+    let msg = format!("run {i} had not returned after {secs:.0} s of wall-clock time: a call into the code under test neither returns nor reaches a scheduling point (endless loop or wait inside one call)");
+    let dir = verif_dir().join("replays");
+    let _ = std::fs::create_dir_all(&dir);
+    let path = dir.join(format!("{}-{}-{}.json", check.id(), seed, i));
+    let doc = json!({"property": check.id(), "seed": seed, "run": i.to_string(), "key": key, "message": msg,
+        "choices": [], "regenerate": {"seed": seed, "run": i}, "tier": if tier == Tier::Thorough { "thorough" } else { "quick" },
+        "how_to_replay": format!("./vcheck replay {}", path.display())});
+    let _ = std::fs::write(&path, serde_json::to_string_pretty(&doc).unwrap());
+    println!("violation: run={i} key={key} :: {msg}");
+    println!("VIOLATION property={} replay={}", check.id(), path.display());
+    use std::io::Write;
+    let _ = std::io::stdout().flush();
+    std::process::exit(1);
+}
+
 fn src_for(check: &dyn Check, seed: u64, i: u64) -> Src {
     // Mix the property id in, so that checks sharing an engine explore
     // different runs under the same VERIF_SEED.
@@ -447,11 +477,35 @@ pub fn run_check(check: &dyn Check, tier: Tier, seed: u64, runs_override: Option
     set_deep(tier == Tier::Thorough);
     let survey = std::env::var("VERIF_SURVEY").is_ok();
     let nviol = AtomicU64::new(0);
+    // Runs in flight (run index, start), one slot per worker, for the watchdog:
+    // a block that loops or blocks for ever inside one call has no scheduling
+    // point at which the simulator could stop it, and the run never returns.
+    let in_flight: Mutex<Vec<Option<(u64, Instant)>>> = Mutex::new(vec![None; nthreads]);
+    let active = AtomicU64::new(nthreads as u64);
+    let hang_secs = hang_secs(tier);
     std::thread::scope(|sc| {
-        for _w in 0..nthreads {
-            sc.spawn(|| {
+        sc.spawn(|| {
+            while active.load(Ordering::SeqCst) > 0 {
+                std::thread::sleep(std::time::Duration::from_millis(250));
+                let hung = in_flight.lock().unwrap().iter().flatten().find(|(_, t)| t.elapsed().as_secs_f64() > hang_secs).cloned();
+                if let Some((i, t)) = hung {
+                    report_hang(check, tier, seed, i, t.elapsed().as_secs_f64());
+                }
+            }
+        });
+        for w in 0..nthreads {
+            let (in_flight, active) = (&in_flight, &active);
+            let (stop, next, agg, nviol, known_keys) = (&stop, &next, &agg, &nviol, &known_keys);
+            sc.spawn(move || {
                 set_quiet(true);
                 let mut local = Agg::default();
+                struct Done<'a>(&'a AtomicU64);
+                impl Drop for Done<'_> {
+                    fn drop(&mut self) {
+                        self.0.fetch_sub(1, Ordering::SeqCst);
+                    }
+                }
+                let _done = Done(active);
                 loop {
                     if stop.load(Ordering::Relaxed) {
                         break;
@@ -464,7 +518,9 @@ pub fn run_check(check: &dyn Check, tier: Tier, seed: u64, runs_override: Option
                         break;
                     }
                     let mut src = src_for(check, seed, i);
-                    let (ctx, r) = run_one(check, &mut src, false, &known_keys);
+                    in_flight.lock().unwrap()[w] = Some((i, Instant::now()));
+                    let (ctx, r) = run_one(check, &mut src, false, known_keys);
+                    in_flight.lock().unwrap()[w] = None;
                     local.evaluations += 1;
                     for (k, v) in ctx.counters {
                         *local.counters.entry(k).or_default() += v;
@@ -782,8 +838,33 @@ pub fn replay_file(checks: &[Box<dyn Check>], path: &str, quiet: bool) -> i32 {
     set_quiet(true);
     set_deep(v["tier"].as_str() == Some("thorough"));
     let known = Known::load().keys_for(prop);
-    let mut src = Src::from_choices(choices);
+    let regen = v["regenerate"].as_object().map(|o| (o["seed"].as_u64().unwrap_or(0), o["run"].as_u64().unwrap_or(0)));
+    let mut src = match regen {
+        Some((seed, run)) => src_for(check.as_ref(), seed, run),
+        None => Src::from_choices(choices),
+    };
+    // Same watchdog as in a batch: a replayed hang is reported, not waited for.
+    let tier = if deep() { Tier::Thorough } else { Tier::Quick };
+    let limit = hang_secs(tier);
+    let started = Instant::now();
+    let finished = std::sync::Arc::new(AtomicBool::new(false));
+    {
+        let (finished, prop, path) = (finished.clone(), prop.to_string(), path.to_string());
+        std::thread::spawn(move || {
+            while !finished.load(Ordering::SeqCst) {
+                std::thread::sleep(std::time::Duration::from_millis(250));
+                if started.elapsed().as_secs_f64() > limit {
+                    println!("replay: property={prop} key={prop}:hung :: the run had not returned after {limit:.0} s");
+                    println!("VIOLATION property={prop} replay={path}");
+                    use std::io::Write;
+                    let _ = std::io::stdout().flush();
+                    std::process::exit(1);
+                }
+            }
+        });
+    }
     let (ctx, r) = run_one(check.as_ref(), &mut src, !quiet, &known);
+    finished.store(true, Ordering::SeqCst);
     if !quiet {
         for l in &ctx.trace {
             println!("  {l}");
